@@ -7,6 +7,7 @@ import json
 import os
 import pkgutil
 import random
+import re
 import sys
 import typing
 import warnings
@@ -268,6 +269,35 @@ def has_inline_fragment_on_interface(case, queries: str) -> bool:
     return any(m in ifaces for m in conds)
 
 
+def interface_fragment_keys(case, queries: str) -> Set[str]:
+    """Response keys selected (at any depth) inside inline fragments / fragment definitions whose type condition is an interface of the case's schema."""
+    import re as _re
+
+    from graphql import FieldNode, FragmentDefinitionNode, InlineFragmentNode, Visitor, parse, visit
+    ifaces = set(_re.findall(r"^interface (\w+)", case.get("_sdl") or "", _re.M))
+    out: Set[str] = set()
+    try:
+        doc = parse(queries)
+    except Exception:  # noqa: BLE001
+        return out
+
+    def collect(selset):
+        for sel in selset.selections:
+            if isinstance(sel, FieldNode):
+                out.add(sel.alias.value if sel.alias else sel.name.value)
+            if getattr(sel, "selection_set", None):
+                collect(sel.selection_set)
+
+    class V(Visitor):
+        def enter(self, node, *_):
+            tc = getattr(node, "type_condition", None)
+            if isinstance(node, (InlineFragmentNode, FragmentDefinitionNode)) and tc is not None and tc.name.value in ifaces:
+                collect(node.selection_set)
+
+    visit(doc, V())
+    return out
+
+
 def relabel_string_literal_findings(case, queries: str, violations: List[Violation]) -> None:
     """Listed findings about GraphQL string literals are keyed by the literal class the document really contains."""
     import re
@@ -283,7 +313,15 @@ def relabel_string_literal_findings(case, queries: str, violations: List[Violati
             elif v.prop == "C04" and v.clause == "generation-typed-refusal-on-valid-input" and "ParsingError" in v.mech and "not found in type" in v.detail:
                 v.mech = "inline-fragment-on-interface-parsing-error"
             elif v.prop == "C05" and (v.clause.startswith("rejects-k") or v.clause in ("rejects-null-at-nonnull", "annotation-image")):
-                v.mech = "inline-fragment-on-interface-lax"
+                # the listed laxness concerns only what is selected INSIDE a fragment whose type condition is an interface: the corrupted key must be one of those
+                keys_in_iface_frags = interface_fragment_keys(case, queries)
+                m_ = re.search(r" at \((.*?)\) was accepted", v.detail)
+                last_key = None
+                if m_:
+                    ks = re.findall(r"'([^']+)'", m_.group(1))
+                    last_key = ks[-1] if ks else None
+                if v.clause == "annotation-image" or last_key is None or last_key in keys_in_iface_frags:
+                    v.mech = "inline-fragment-on-interface-lax"
     for v in violations:
         if v.prop == "C04" and v.clause == "generation-internal-error" and "InvalidInput" in v.mech and (
                 ("strlit.single_quote" in dirty and has_single) or ("strlit.block" in dirty and has_block)):
